@@ -9,6 +9,10 @@ pub open spec fn cube_sat(neg: Seq<Var>, pos: Seq<Var>, a: Asg) -> bool {
 pub open spec fn lits_ok(nodes: Seq<BddNode>, tree: int, prefix: Seq<Var>, lits: Seq<Var>) -> bool {
     forall|i: int| 0 <= i < lits.len() ==> prefix.contains(#[trigger] lits[i]) || supp(nodes, tree).contains(lits[i])
 }
+// the literals on the goal variable agree with the goal value (a path that contradicts the goal at the goal variable is never taken)
+pub open spec fn glit_ok(goal: bool, goal_var: Var, neg: Seq<Var>, pos: Seq<Var>) -> bool {
+    (goal ==> !neg.contains(goal_var)) && (!goal ==> !pos.contains(goal_var))
+}
 pub open spec fn cubes_ok(nodes: Seq<BddNode>, tree: int, goal: bool, goal_var: Var, neg: Seq<Var>, pos: Seq<Var>, r: Seq<(Vec<Var>, Vec<Var>)>) -> bool {
     // every cube refines the prefix
     &&& forall|k: int| 0 <= k < r.len() ==> forall|a: Asg| #[trigger] cube_sat((#[trigger] r[k]).0@, r[k].1@, a) ==> cube_sat(neg, pos, a)
@@ -16,6 +20,8 @@ pub open spec fn cubes_ok(nodes: Seq<BddNode>, tree: int, goal: bool, goal_var: 
     &&& forall|k1: int, k2: int, a: Asg| 0 <= k1 < k2 < r.len() ==> !(#[trigger] cube_sat(r[k1].0@, r[k1].1@, a) && #[trigger] cube_sat(r[k2].0@, r[k2].1@, a))
     // every literal of a cube comes from the prefix or is a variable the diagram depends on (a variable on the path)
     &&& forall|k: int| 0 <= k < r.len() ==> lits_ok(nodes, tree, neg, (#[trigger] r[k]).0@) && lits_ok(nodes, tree, pos, r[k].1@)
+    // no cube contradicts the goal at the goal variable (given that the prefix does not)
+    &&& glit_ok(goal, goal_var, neg, pos) ==> forall|k: int| 0 <= k < r.len() ==> glit_ok(goal, goal_var, (#[trigger] r[k]).0@, r[k].1@)
     // where the goal variable has the goal value (and the prefix holds): covered  <==>  the diagram evaluates to the goal
     &&& forall|a: Asg| a(goal_var.0) == goal && #[trigger] cube_sat(neg, pos, a) ==> ((exists|k: int| 0 <= k < r.len() && cube_sat(r[k].0@, r[k].1@, a)) <==> den(nodes, tree)(a) == goal)
 }
@@ -27,6 +33,9 @@ pub proof fn lemma_cubes_term(nodes: Seq<BddNode>, t: int, goal: bool, gv: Var, 
     assert forall|k: int| 0 <= k < r.len() implies lits_ok(nodes, t, neg, (#[trigger] r[k]).0@) && lits_ok(nodes, t, pos, r[k].1@) by {
         assert forall|i: int| 0 <= i < r[k].0@.len() implies neg.contains(#[trigger] r[k].0@[i]) by { assert(neg[i] == r[k].0@[i]); }
         assert forall|i: int| 0 <= i < r[k].1@.len() implies pos.contains(#[trigger] r[k].1@[i]) by { assert(pos[i] == r[k].1@[i]); }
+    }
+    if glit_ok(goal, gv, neg, pos) {
+        assert forall|k: int| 0 <= k < r.len() implies glit_ok(goal, gv, (#[trigger] r[k]).0@, r[k].1@) by { assert(r[k].0@ == neg && r[k].1@ == pos); }
     }
     assert forall|a: Asg| a(gv.0) == goal && #[trigger] cube_sat(neg, pos, a) implies ((exists|k: int| 0 <= k < r.len() && cube_sat(r[k].0@, r[k].1@, a)) <==> den(nodes, t)(a) == goal) by {
         lemma_den_term_eval(nodes, t, a);
@@ -78,6 +87,23 @@ pub proof fn lemma_cubes_node(nodes: Seq<BddNode>, t: int, goal: bool, gv: Var, 
             assert forall|i: int| 0 <= i < r[k].0@.len() implies neg.contains(#[trigger] r[k].0@[i]) || supp(nodes, t).contains(r[k].0@[i]) by {
                 let x = r[k].0@[i];
                 if neg.push(v).contains(x) { let j = choose|j: int| 0 <= j < neg.push(v).len() && neg.push(v)[j] == x; if j < neg.len() { assert(neg[j] == x); } }
+            }
+        }
+    }
+    if glit_ok(goal, gv, neg, pos) {
+        assert forall|k: int| 0 <= k < r.len() implies glit_ok(goal, gv, (#[trigger] r[k]).0@, r[k].1@) by {
+            if k < nh {
+                assert(r[k] == rh[k]);
+                assert(gv != v || goal);
+                assert(glit_ok(goal, gv, neg, pos.push(v))) by {
+                    if !goal && pos.push(v).contains(gv) { let j = choose|j: int| 0 <= j < pos.push(v).len() && pos.push(v)[j] == gv; if j < pos.len() { assert(pos[j] == gv); } }
+                }
+            } else {
+                assert(r[k] == rl[k - nh]);
+                assert(gv != v || !goal);
+                assert(glit_ok(goal, gv, neg.push(v), pos)) by {
+                    if goal && neg.push(v).contains(gv) { let j = choose|j: int| 0 <= j < neg.push(v).len() && neg.push(v)[j] == gv; if j < neg.len() { assert(neg[j] == gv); } }
+                }
             }
         }
     }
